@@ -242,12 +242,3 @@ Proof.
     rewrite HT, map_map in Hnd. exact (nodup_map_pairs (fun ev => teval e (ev_time ev)) (buf_events b) e1 e2 Hnd Hp').
 Qed.
 
-Theorem C09_sound : forall st e, sat e (initialize st) ->
-  forall k f, In (k, f) (spec_C09 st) -> feval e f = true.
-Proof.
-  intros st e Hs k f Hin. unfold spec_C09 in Hin.
-  apply in_flat_map in Hin as (b & Hb & Hin). apply in_map_iff in Hin as ([k' f'] & [= <- <-] & Hin).
-  apply sat_initialize_ext in Hs as [_ Hbuf]. unfold spec_C09_P in Hin. apply in_app_or in Hin as [Hin|Hin].
-  - eapply buffer_sound_basic; eauto.
-  - eapply buffer_sound_levels; eauto.
-Qed.
